@@ -58,7 +58,16 @@ func (g *gen) perturb(p s2.Point, d float64) s2.Point {
 
 // partner returns a second endpoint for an edge starting at a, from the adversarial classes.
 func (g *gen) partner(a s2.Point) (s2.Point, string) {
-	switch g.rng.Intn(12) {
+	switch g.rng.Intn(13) {
+	case 12: // nearly antipodal, rotated inside the plane through a and the pole (near-polar great circle)
+		z := r3.Vector{X: 0, Y: 0, Z: 1}
+		t := z.Sub(a.Mul(z.Dot(a.Vector)))
+		if t.Norm() < 1e-9 {
+			return g.point(), "random"
+		}
+		t = t.Normalize()
+		th := math.Pow(10, -8-7*g.rng.Float())
+		return s2.Point{Vector: a.Mul(-math.Cos(th)).Add(t.Mul(math.Sin(th))).Normalize()}, "near-antipodal-polar-circle"
 	case 0:
 		return a, "identical"
 	case 1: // nearly identical around the 1.91346e-15 threshold: |n| = 2 sin(angle)
@@ -189,7 +198,24 @@ func (g *gen) pointNearCap(c s2.Cap) s2.Point {
 // loopVertices: regular loops (small/large), loops around or through a pole, thin loops
 // crossing the 180 meridian, loops with nearly antipodal consecutive vertices.
 func (g *gen) loopVertices() ([]s2.Point, string) {
-	switch g.rng.Intn(8) {
+	switch g.rng.Intn(10) {
+	case 8, 9: // a long edge (150..179.999 degrees) through or within nanometres of a pole
+		z := g.sgn()
+		lng := g.rng.Range(-3, 3)
+		lat := []float64{0.26, 0.05, 1e-3, 1e-6}[g.rng.Intn(4)] * z
+		off := []float64{0, 0, g.tiny(), -g.tiny()}[g.rng.Intn(4)]
+		a := P(math.Cos(lat)*math.Cos(lng), math.Cos(lat)*math.Sin(lng), math.Sin(lat))
+		lat2 := lat * g.rng.Range(0.5, 1.5)
+		b := P(math.Cos(lat2)*math.Cos(lng+math.Pi+off), math.Cos(lat2)*math.Sin(lng+math.Pi+off), math.Sin(lat2))
+		if g.rng.Bool() { // exactly the same meridian plane
+			b = P(-a.X*g.rng.Range(0.5, 2), -a.Y, a.Z)
+			b = s2.Point{Vector: r3.Vector{X: -a.X, Y: -a.Y, Z: a.Z * g.rng.Range(0.5, 1.5)}.Normalize()}
+		}
+		third := P(math.Cos(lng+1.5), math.Sin(lng+1.5), -0.5*z)
+		if g.rng.Bool() {
+			return []s2.Point{a, b, third}, "long-edge-near-pole"
+		}
+		return []s2.Point{b, a, third}, "long-edge-near-pole"
 	case 0: // regular loop centred exactly on / within nanometres of a pole
 		d := []float64{0, g.tiny()}[g.rng.Intn(2)]
 		ctr := P(d, d*0.3, g.sgn())
